@@ -117,7 +117,8 @@ type wireDriver struct {
 	bsub   *pubsub.Subscription
 	btopic string
 	held   map[string]peer.ID
-	extra  M // fields added to the next emitted line only
+	vrel   chan struct{} // releases the blocking validator of gaterSetup
+	extra  M             // fields added to the next emitted line only
 }
 
 func (d *wireDriver) extraFields(w *world.World, line M) {
@@ -375,6 +376,40 @@ func (d *wireDriver) do(t *testing.T, a M) {
 		hnet.Settle(5 * time.Millisecond)
 		d.extra = M{"res": res}
 		w.Emit(a)
+	case "gaterSetup":
+		// make the peer gater throttle peer p (AcceptControl): (1) p delivers messages with a broken signature (its goodput
+		// drops: reject weight 16), (2) an asynchronous validator of concurrency 1 blocks on the first valid message so that
+		// the following ones are rejected as "validation throttled" (the gater's circuit breaker closes). The node must
+		// hold a subscription of t. The gater's decision per RPC is random with P(throttle) = 1 - 1/(1+16*bad).
+		tp, pn := gets(a, "t"), gets(a, "p")
+		if d.vrel == nil {
+			d.vrel = make(chan struct{})
+			rel := d.vrel
+			err := w.NUT.RegisterTopicValidator(tp, func(ctx context.Context, _ peer.ID, _ *pubsub.Message) pubsub.ValidationResult {
+				select {
+				case <-rel:
+				case <-ctx.Done():
+				}
+				return pubsub.ValidationAccept
+			}, pubsub.WithValidatorConcurrency(1), pubsub.WithValidatorTimeout(time.Hour))
+			if err != nil {
+				t.Fatalf("gaterSetup: %v", err)
+			}
+		}
+		for i := 0; i < geti(a, "bad", 3); i++ {
+			w.Do(M{"a": "msg", "p": pn, "t": tp, "m": vh.Sprintf("bad%d", i), "badsig": true})
+		}
+		for i := 0; i < geti(a, "n", 4); i++ {
+			w.Do(M{"a": "msg", "p": pn, "t": tp, "m": vh.Sprintf("thr%d", i)})
+		}
+	case "gaterRelease":
+		w.Guard()
+		if d.vrel != nil {
+			close(d.vrel)
+			d.vrel = nil
+		}
+		hnet.Settle(15 * time.Millisecond)
+		w.Emit(a)
 	case "quiet":
 		// long enough for announceRetry (1..1000 ms) and for the dead-peer respawn backoff
 		w.Guard()
@@ -391,7 +426,10 @@ func (d *wireDriver) do(t *testing.T, a M) {
 
 func runWire(t *testing.T, out *vh.Out, idx int, s scenario) {
 	synctest.Test(t, func(t *testing.T) {
-		cfg := world.Config{Router: gets(s.Cfg, "router"), QueueSize: geti(s.Cfg, "queue", 0), Hosts: geti(s.Cfg, "hosts", 4)}
+		// "score": gossipsub with peer scoring (score = the application-specific score the scenario sets with score{p,v},
+		// graylist threshold -6); "gater": gossipsub with the peer gater
+		cfg := world.Config{Router: gets(s.Cfg, "router"), QueueSize: geti(s.Cfg, "queue", 0), Hosts: geti(s.Cfg, "hosts", 4),
+			Score: getb(s.Cfg, "score"), Gater: getb(s.Cfg, "gater"), Retain: 10 * time.Second}
 		d := &wireDriver{held: map[string]peer.ID{}, subs: map[string][]*reader{}, dead: map[string][]*reader{},
 			relays: map[string][]pubsub.RelayCancelFunc{}, rdead: map[string][]pubsub.RelayCancelFunc{}}
 		for _, x := range s.Cfg["topics"].([]any) {
@@ -401,12 +439,16 @@ func runWire(t *testing.T, out *vh.Out, idx int, s scenario) {
 		if l, ok := s.Cfg["peers"].([]any); ok {
 			peers = l
 		}
-		w := world.New(t, out, idx, cfg, M{"queue": cfg.QueueSize, "topics": s.Cfg["topics"], "peers": peers, "class": gets(s.Cfg, "class")})
+		w := world.New(t, out, idx, cfg, M{"queue": cfg.QueueSize, "topics": s.Cfg["topics"], "peers": peers, "class": gets(s.Cfg, "class"), "score": cfg.Score, "gater": cfg.Gater, "graylist": -6})
 		defer w.Close()
 		d.w = w
 		w.Extra = d.extraFields
 		for _, a := range s.Acts {
 			d.do(t, a)
+		}
+		if d.vrel != nil {
+			close(d.vrel)
+			d.vrel = nil
 		}
 		// never leave goroutines parked on gates / holds
 		for _, f := range w.Fakes {
